@@ -736,7 +736,7 @@ Lemma gpstate_eta : forall st,
      gp_params := gp_params st; gp_err := gp_err st |} = st.
 Proof. destruct st; reflexivity. Qed.
 
-Ltac rwx a b c d := ss; repeat (progress (rewrite ?a, ?b, ?c, ?d); ss); reflexivity.
+Ltac rwx a b c d := ss; repeat (progress (unfold gp_scoped; rewrite ?a, ?b, ?c, ?d); ss); reflexivity.
 
 Lemma rewrite_prog : rewrite_prog_stmt.
 Proof.
@@ -786,4 +786,116 @@ Proof.
                           (map gp_rw_field fs) (map gp_rw_oneof os) ms [] _ _ (gp_map_set full GpvUnit done) 0 Hchildren Hget2 Hq3 Hr3) as HL3.
   cbn [length app] in HL3. rewrite HL3. clear HL3.
   ss. rewrite set_set_same. rewrite gp_list_set_set. reflexivity.
+Qed.
+
+(* ---- (d) generateAllFiles ------------------------------------------------------------------------------------------------------------ *)
+Lemma gp_all_files_refs : forall k n, gp_all_files (map GpvFile (seq k n)) = true.
+Proof. intros k n. revert k. induction n as [|n IH]; intro k; simpl; auto. Qed.
+
+Lemma required_in_registry : forall names acc r, required names acc = Some r ->
+  (forall n, In n acc -> lookup n <> None) -> forall n, In n r -> lookup n <> None.
+Proof.
+  induction names as [|x names IH]; intros acc r H Hacc n Hin; simpl in H.
+  - inversion H; subst. apply Hacc. exact Hin.
+  - destruct (name_eqb x s_all).
+    + inversion H; subst. intro Hn. apply lookup_none in Hn. apply Hn. exact Hin.
+    + destruct (lookup x) eqn:El; [|discriminate]. apply (IH _ _ H); [|exact Hin].
+      intros n0 Hn0. unfold add_name in Hn0. destruct (existsb (name_eqb x) acc); [apply Hacc; exact Hn0|].
+      destruct Hn0 as [<-|Hn0]; [congruence | apply Hacc; exact Hn0].
+Qed.
+Lemma find_features_in_registry : forall names fs, find_features names = Some fs -> forall n, In n fs -> lookup n <> None.
+Proof.
+  unfold find_features. intros names fs H n Hin. destruct (required names []) as [r|] eqn:Er; [|discriminate]. inversion H; subst.
+  apply (required_in_registry names [] r Er); [intros ? []|]. apply Permutation_in with (l := GenOrder.sort r); [apply sort_is_permutation | exact Hin].
+Qed.
+Lemma required_none_unknown : forall names acc, required names acc = None -> exists n, gp_first_unknown names = Some n.
+Proof.
+  induction names as [|x names IH]; intros acc H; simpl in *; [discriminate|].
+  destruct (name_eqb x s_all); [discriminate|]. destruct (lookup x); [apply (IH _ H) | exists x; reflexivity].
+Qed.
+Lemma generated_feats : forall feat_gen reg fs, gp_registry_ok feat_gen reg -> (forall n, In n fs -> lookup n <> None) ->
+  existsb feat_gen (map (gp_feat_value reg) fs) = generated fs.
+Proof.
+  intros feat_gen reg fs [Hp Hfg] Hin. unfold generated. induction fs as [|n fs IH]; [reflexivity|]. simpl.
+  rewrite IH by (intros; apply Hin; right; assumption). f_equal.
+  unfold gp_feat_value. destruct (gp_map_get n reg) as [v|] eqn:Ev; [apply Hfg; exact Ev|].
+  exfalso. apply (Hin n (or_introl eq_refl)). apply (reg_lookup reg n Hp). exact Ev.
+Qed.
+
+Section GF.
+  Variable perm : gpmap -> gpmap.
+  Variable sorter : (gpvalue -> gpvalue -> bool) -> list gpvalue -> list gpvalue.
+  Variable feat_gen : gpvalue -> bool.
+  Variable call : gname -> list gpvalue -> gpstate -> gpres (list gpvalue).
+  Variables (G : gpframe) (MM : list gpmap) (P : list (name * name)) (E : option (gname * list name)).
+  Variables (feats : list gpvalue) (Vn Vp : gpvalue).
+
+  Notation STG F O :=
+    {| gp_env := [[("err"%gname, GpvErr None); ("gen"%gname, GpvGen feats); ("ext"%gname, GpvExt); ("plugin"%gname, GpvPlugin);
+                   ("featureNames"%gname, Vn); ("poolable"%gname, Vp)]];
+       gp_glob := G; gp_maps := MM; gp_files := F; gp_outs := O; gp_params := P; gp_err := E |}.
+
+  Lemma gf_loop : forall rest done O j,
+    gp_loop (gp_range_step perm sorter feat_gen call "_" "file" canon_gen_files_body)
+            (gp_index_items j (map GpvFile (seq (length done) (length rest)))) (STG (done ++ rest) O)
+    = GpOk GsgNext (STG (done ++ rest) (O ++ map (gp_out_of (existsb feat_gen feats)) (filter fi_generate rest))).
+  Proof.
+    induction rest as [|f rest IH]; intros done O j.
+    - simpl. rewrite !app_nil_r. reflexivity.
+    - simpl length. simpl seq. simpl map. simpl gp_index_items. loop_head.
+      unfold gp_range_step at 1. unfold gp_scoped. unfold canon_gen_files_body.
+      assert (Hf : nth_error (done ++ f :: rest) (length done) = Some f) by apply nth_error_app_mid.
+      destruct (fi_generate f) eqn:Eg.
+      + exec_head ltac:(rwx Hf Eg Eg Eg).
+        exec_head ltac:(rwx Hf Eg Eg Eg).
+        exec_head ltac:(ss; rewrite nth_error_snoc_new; ss; rewrite gp_list_set_snoc; reflexivity).
+        exec_head ltac:(ss; rewrite Hf; ss; rewrite nth_error_snoc_new; ss; rewrite gp_list_set_snoc; reflexivity).
+        destruct (fi_proto3 f && existsb feat_gen feats) eqn:Eb.
+        * exec_head ltac:(ss; rewrite nth_error_snoc_new; rewrite Hf; ss; rewrite Eb; ss; reflexivity).
+          rewrite gp_block_nil. ss. fold canon_gen_files_body.
+          replace (S (length done)) with (length (done ++ [f])) by (rewrite app_length; simpl; lia).
+          replace (done ++ f :: rest) with ((done ++ [f]) ++ rest) by (rewrite <- app_assoc; reflexivity).
+          rewrite IH. unfold gp_out_of at 2. rewrite Eb. simpl negb.
+          rewrite <- (app_assoc O). rewrite !app_nil_r. reflexivity.
+        * exec_head ltac:(ss; repeat (progress (unfold gp_scoped; rewrite ?nth_error_snoc_new, ?gp_list_set_snoc, ?Hf, ?Eb); ss); reflexivity).
+          rewrite gp_block_nil. ss. fold canon_gen_files_body.
+          replace (S (length done)) with (length (done ++ [f])) by (rewrite app_length; simpl; lia).
+          replace (done ++ f :: rest) with ((done ++ [f]) ++ rest) by (rewrite <- app_assoc; reflexivity).
+          rewrite IH. unfold gp_out_of at 2. rewrite Eb. simpl negb.
+          rewrite <- (app_assoc O). rewrite !app_nil_r. reflexivity.
+      + exec_head ltac:(rwx Hf Eg Eg Eg).
+        ss. fold canon_gen_files_body.
+        replace (S (length done)) with (length (done ++ [f])) by (rewrite app_length; simpl; lia).
+        replace (done ++ f :: rest) with ((done ++ [f]) ++ rest) by (rewrite <- app_assoc; reflexivity).
+        rewrite IH. reflexivity.
+  Qed.
+End GF.
+
+Lemma generate_all_files_prog : generate_all_files_prog_stmt.
+Proof.
+  intros perm sorter feat_gen fuel st reg names pool Hperm Hsort Hfs Hrok. pose proof Hrok as [Hreg Hfg].
+  pose (st3 := {| gp_env := [[("ext"%gname, GpvExt); ("plugin"%gname, GpvPlugin); ("featureNames"%gname, GpvSlice (map GpvStr names));
+                             ("poolable"%gname, GpvMap pool)]];
+                  gp_glob := gp_glob st; gp_maps := gp_maps st; gp_files := gp_files st; gp_outs := gp_outs st; gp_params := gp_params st;
+                  gp_err := gp_err st |}).
+  destruct (find_features_prog perm sorter feat_gen fuel st3 reg names Hperm Hsort Hfs Hreg) as [m Hm]. unfold st3 in Hm. clear st3.
+  exists m. unfold gp_find_features_spec in Hm.
+  rewrite gp_call_S. remember (gp_call perm sorter feat_gen canon_genprog (S fuel)) as call eqn:Hcall.
+  try rewrite <- Hcall in Hm.
+  ss. unfold canon_generateAllFiles_body.
+  exec_head ltac:(ss; reflexivity).
+  destruct (find_features names) as [fs|] eqn:Eff.
+  - exec_head ltac:(ss; rewrite gp_all_files_refs; ss; rewrite Hm; ss; reflexivity).
+    exec_head ltac:(ss; reflexivity).
+    rewrite gp_block_cons. rewrite gp_exec_range. ss.
+    pose proof (gf_loop perm sorter feat_gen call (gp_glob st) (gp_maps st ++ [m]) (gp_params st) (gp_err st) (map (gp_feat_value reg) fs)
+                        (GpvSlice (map GpvStr names)) (GpvMap pool) (gp_files st) [] (gp_outs st) 0) as HL.
+    cbn [length app] in HL. rewrite HL. clear HL. ss.
+    rewrite (generated_feats feat_gen reg fs Hrok (find_features_in_registry names fs Eff)). reflexivity.
+  - assert (Hn : exists n, gp_first_unknown names = Some n).
+    { unfold find_features in Eff. destruct (required names []) eqn:Er; [discriminate|]. apply (required_none_unknown _ _ Er). }
+    destruct Hn as [n Hn]. rewrite Hn in *.
+    exec_head ltac:(ss; rewrite gp_all_files_refs; ss; rewrite Hm; ss; reflexivity).
+    exec_head ltac:(ss; reflexivity).
+    ss. reflexivity.
 Qed.
